@@ -73,7 +73,8 @@ type laSim struct {
 	podBusy   map[string]bool
 	inflight  map[string]int // node -> operations in progress that may change the node's cache state
 	ver       map[string]int // node -> number of completed state-changing operations
-	cleanups  map[string]int // node -> how often the node's expected state became empty
+	cleanups  map[string]int // node -> how often the node's entry was emptied
+	addRecs   map[string][]*addRec
 	schedQ    []laOp
 	bindQ     []*bindTask
 	apiDone   bool
@@ -87,7 +88,7 @@ func newLaSim(r *sim.Run) *laSim {
 	s := &laSim{r: r, st: &laStore{pods: map[string]*podSnap{}, metrics: map[string]*metricSnap{}},
 		nodeCfg: map[string]*laNode{}, nodeObjs: map[string]*corev1.Node{}, nodeInfos: map[string]fwktype.NodeInfo{},
 		view: map[string]*podSnap{}, busy: map[string]bool{}, mMetric: map[string]*metricSnap{}, mAssign: map[string]map[string]*mAssigned{},
-		assumed: map[string]string{}, podBusy: map[string]bool{}, inflight: map[string]int{}, ver: map[string]int{}, cleanups: map[string]int{}}
+		assumed: map[string]string{}, podBusy: map[string]bool{}, inflight: map[string]int{}, ver: map[string]int{}, cleanups: map[string]int{}, addRecs: map[string][]*addRec{}}
 	r.Plan.GetCfg(&s.cfg)
 	cfg := &s.cfg
 	args := &config.LoadAwareSchedulingArgs{
@@ -391,42 +392,87 @@ func (s *laSim) unlockPods(uids ...string) {
 
 func (s *laSim) nodeEmpty(n string) bool { return s.mMetric[n] == nil && len(s.mAssign[n]) == 0 }
 
+// addRec remembers one completed add/update for a node: what it added and how
+// often the node's entry was emptied (and therefore deleted) while it was in progress.
+type addRec struct {
+	key       string // uid, or "metric"
+	emptyings int
+}
+
+// emptyBut: the node is expected to hold nothing except objects named in keys.
+func (s *laSim) emptyBut(n string, keys map[string]bool) bool {
+	if s.mMetric[n] != nil && !keys["metric"] {
+		return false
+	}
+	for _, uid := range sortedUIDs(s.mAssign[n]) {
+		if !keys[uid] {
+			return false
+		}
+	}
+	return true
+}
+
 // mutate brackets one real state-changing call: the nodes it may touch are
 // marked in flight while it runs, the expectation is updated in the same step
-// in which the real call returns.
-func (s *laSim) mutate(nodes []string, adding bool, real func(), model func()) {
+// in which the real call returns. addNode/addKey name what the call adds (if anything).
+func (s *laSim) mutate(nodes []string, addNode, addKey string, real func(), model func()) {
 	before := map[string]int{}
+	addsBefore := map[string]int{}
 	for _, n := range nodes {
 		s.inflight[n]++
 		before[n] = s.cleanups[n]
+		addsBefore[n] = len(s.addRecs[n])
 	}
 	real()
-	wasEmpty := map[string]bool{}
-	for _, n := range nodes {
-		wasEmpty[n] = s.nodeEmpty(n)
-		if !adding {
-			continue
-		}
-		if s.cleanups[n] > before[n] {
+	if addNode != "" && addKey != "" {
+		n := addNode
+		rec := &addRec{key: addKey, emptyings: s.cleanups[n] - before[n]}
+		s.addRecs[n] = append(s.addRecs[n], rec)
+		if rec.emptyings > 0 {
 			s.r.Probe("deleted-nodeinfo-retry-window")
 		}
-		if s.cleanups[n]-before[n] >= 2 {
-			// Second shape of the same finding: the node's entry was emptied and removed twice while this add/update was in
-			// progress (each of its two attempts can take hold of an entry that is deleted before the attempt locks it).
+		if rec.emptyings >= 2 {
+			// History class of a recorded finding: the node's entry was emptied and removed twice while this add/update was
+			// in progress (each of its two attempts can take hold of an entry that is deleted before the attempt locks it).
 			s.r.Probe("node-entry-deleted-twice-during-add")
 			s.r.Tag("add-during-entry-deletion-window")
 		}
-		// History class of a recorded finding: this add/update ran while the node's entry in the map was marked deleted but
-		// not yet removed (another actor is inside tryCleanup between "deleted = true" and CompareAndDelete). Nothing
-		// yields between the last failed attempt and the return, so the entry is still there, still marked, exactly then.
+		// First shape of the same finding (repaired by c1f9615): the add ran while the node's entry in the map was marked
+		// deleted but not yet removed. Nothing yields between the last failed attempt and the return, so the entry is still
+		// there, still marked, exactly then.
 		if v, ok := s.cache.items.Load(n); ok && v.(*nodeInfo).deleted {
 			s.r.Tag("add-during-entry-deletion-window")
 		}
 	}
+	// Did this call empty a node's entry? Objects added by adds that ran to completion while this call was in progress are
+	// left out of the question: had such an add reached the entry before this call locked it, the entry would not be
+	// empty; if the entry is empty, the add met it afterwards (deleted) and its own object went elsewhere or nowhere.
+	during := map[string]map[string]bool{}
+	wasEmpty := map[string]bool{}
+	for _, n := range nodes {
+		during[n] = map[string]bool{}
+		for _, rec := range s.addRecs[n][addsBefore[n]:] {
+			if !(n == addNode && rec.key == addKey) {
+				during[n][rec.key] = true
+			}
+		}
+		wasEmpty[n] = s.emptyBut(n, during[n])
+	}
 	model()
 	for _, n := range nodes {
-		if !wasEmpty[n] && s.nodeEmpty(n) {
+		if !wasEmpty[n] && s.emptyBut(n, during[n]) {
 			s.cleanups[n]++
+			// adds that completed while this (emptying) call was in progress saw one more deletion of the entry
+			for _, rec := range s.addRecs[n][addsBefore[n]:] {
+				if n == addNode && rec.key == addKey {
+					continue
+				}
+				rec.emptyings++
+				if rec.emptyings >= 2 {
+					s.r.Probe("node-entry-deleted-twice-during-add")
+					s.r.Tag("add-during-entry-deletion-window")
+				}
+			}
 		}
 		s.inflight[n]--
 		s.ver[n]++
@@ -505,7 +551,7 @@ func (s *laSim) deliverPod(ev laEvent) {
 	case "add":
 		p := ev.np
 		s.lockPods("pod-lock", p.UID)
-		s.mutate(nonEmpty(p.Node), true, func() { s.cache.OnAdd(p.obj, false) }, func() {
+		s.mutate(nonEmpty(p.Node), p.Node, updKey(p), func() { s.cache.OnAdd(p.obj, false) }, func() {
 			s.view[p.Name] = p
 			if p.terminated() {
 				return // an add never removes
@@ -524,7 +570,7 @@ func (s *laSim) deliverPod(ev laEvent) {
 				r.Tag("pod-update-replaces-uid")
 			}
 		}
-		s.mutate(nonEmpty(o.Node, p.Node), updKey(p) != "", func() { s.cache.OnUpdate(o.obj, p.obj) }, func() {
+		s.mutate(nonEmpty(o.Node, p.Node), p.Node, updKey(p), func() { s.cache.OnUpdate(o.obj, p.obj) }, func() {
 			s.view[p.Name] = p
 			if o.UID != p.UID || (o.Node != "" && o.Node != p.Node) {
 				s.mRemove(o.Node, o.UID)
@@ -542,7 +588,7 @@ func (s *laSim) deliverPod(ev laEvent) {
 	case "delete":
 		o := ev.op
 		s.lockPods("pod-lock", o.UID)
-		s.mutate(nonEmpty(o.Node), false, func() { s.cache.OnDelete(o.obj) }, func() {
+		s.mutate(nonEmpty(o.Node), "", "", func() { s.cache.OnDelete(o.obj) }, func() {
 			if v := s.view[o.Name]; v != nil && v.UID == o.UID {
 				delete(s.view, o.Name)
 			}
@@ -566,11 +612,11 @@ func (s *laSim) deliverMetric(ev laEvent) {
 	h := s.cache.NodeMetricHandler()
 	switch ev.kind {
 	case "add":
-		s.mutate([]string{ev.nm.Node}, true, func() { h.OnAdd(ev.nm.obj, false) }, func() { s.mMetric[ev.nm.Node] = ev.nm })
+		s.mutate([]string{ev.nm.Node}, ev.nm.Node, "metric", func() { h.OnAdd(ev.nm.obj, false) }, func() { s.mMetric[ev.nm.Node] = ev.nm })
 	case "update":
-		s.mutate([]string{ev.nm.Node}, true, func() { h.OnUpdate(ev.om.obj, ev.nm.obj) }, func() { s.mMetric[ev.nm.Node] = ev.nm })
+		s.mutate([]string{ev.nm.Node}, ev.nm.Node, "metric", func() { h.OnUpdate(ev.om.obj, ev.nm.obj) }, func() { s.mMetric[ev.nm.Node] = ev.nm })
 	case "delete":
-		s.mutate([]string{ev.om.Node}, false, func() { h.OnDelete(ev.om.obj) }, func() { delete(s.mMetric, ev.om.Node) })
+		s.mutate([]string{ev.om.Node}, "", "", func() { h.OnDelete(ev.om.obj) }, func() { delete(s.mMetric, ev.om.Node) })
 	}
 	n := ""
 	if ev.nm != nil {
@@ -621,7 +667,7 @@ func (s *laSim) cycle(op laOp) {
 	assumed.build()
 	now := time.Now()
 	s.lockPods("pod-lock", snap.UID)
-	s.mutate([]string{chosen}, true, func() {
+	s.mutate([]string{chosen}, chosen, snap.UID, func() {
 		if st := s.pl.Reserve(ctx, state, assumed.obj, chosen); !st.IsSuccess() {
 			r.Fail("reserve", "", "Reserve failed: %v", st.Message())
 		}
@@ -647,7 +693,7 @@ func (s *laSim) unreserve(t *bindTask) {
 		// bound to this very node (lost bind acknowledgement, or another scheduler bound it to the same node)
 		s.r.Tag("unreserve-after-binding-visible")
 	}
-	s.mutate([]string{t.node}, false, func() {
+	s.mutate([]string{t.node}, "", "", func() {
 		s.pl.Unreserve(ctx, framework.NewCycleState(), t.assumed.obj, t.node)
 		if s.cfg.Forget {
 			// frameworkext.ForgetPod runs the handler the plugin registered in New()
